@@ -20,8 +20,9 @@ Definition is_in (f : flow) : bool := match f with FIn => true | FOut => false e
 Definition flow_eqb (a b : flow) : bool := Bool.eqb (is_in a) (is_in b).
 Definition flipif (b : bool) (f : flow) : flow := if b then flip_flow f else f.
 
-(* Port flow shape init dims: `init` is the raw initial value (None = 0), i.e. `_init_as_const.value`
-   = Const.cast(init or 0).value — NOT normalised to the shape.
+(* Port flow shape init dims: `init` is the raw initial value (None = 0) as given (`Member.init`, compared by
+   `Member.__eq__`); `_init_as_const.value` = Const(Const.cast(init or 0).value, shape).value is `m_cinit` below
+   (normalised to the shape, like the init of the Signal that create() makes).
    Iface flow w ms dims: description = Signature(ms), wrapped in FlippedSignature iff w. *)
 Inductive member :=
 | Port (f : flow) (sh : shape) (init : Z) (dims : list nat)
@@ -36,6 +37,8 @@ Definition m_is_port (m : member) : bool := match m with Port _ _ _ _ => true | 
 Definition m_is_iface (m : member) : bool := negb (m_is_port m).
 Definition m_shape (m : member) : shape := match m with Port _ sh _ _ => sh | _ => Sh 0 false end.
 Definition m_init (m : member) : Z := match m with Port _ _ i _ => i | _ => 0 end.
+(* member._init_as_const.value *)
+Definition m_cinit (m : member) : Z := norm (m_shape m) (m_init m).
 
 (* Member.flip *)
 Definition flip_member (m : member) : member :=
@@ -203,7 +206,7 @@ Fixpoint compl_m (sc : bool) (fl : bool) (m : member) (v : obj) {struct m} : res
   match m with
   | Port _ sh i _ =>
       match v with
-      | OSig _ sh' i' => Ok (shape_eqb sh' sh && (i' =? i))
+      | OSig _ sh' i' => Ok (shape_eqb sh' sh && (i' =? norm sh i))
       | OConst sh' _ => Ok (shape_eqb sh' sh)
       | _ => Ok false
       end
@@ -225,7 +228,8 @@ Definition is_compliant (x : sigt) (o : obj) : res bool := compl_m true false (t
 (* second call in connect(): is_compliant(obj, reasons=[...]) does not stop at the first failure *)
 Definition is_compliant_reasons (x : sigt) (o : obj) : res bool := compl_m false false (top x) o.
 
-(* ---------- Signature.flatten(obj): leaves only, indices in paths ---------- *)
+(* ---------- Signature.flatten(obj): leaves only, indices in paths ----------
+   l_init is `_init_as_const.value` of the yielded Member(flow, shape, init=member.init) *)
 Record leaf := Leaf { l_path : path; l_flow : flow; l_shape : shape; l_init : Z; l_val : obj }.
 
 Fixpoint concat_res {A} (l : list (res (list A))) : res (list A) :=
@@ -250,7 +254,7 @@ Fixpoint iter_dims {A} (f : path -> obj -> res (list A)) (dims : list nat) (p : 
 
 Fixpoint flat_obj_m (fl : bool) (m : member) (p : path) (v : obj) {struct m} : res (list leaf) :=
   match m with
-  | Port f sh i _ => Ok [Leaf p (flipif fl f) sh i v]
+  | Port f sh i _ => Ok [Leaf p (flipif fl f) sh (norm sh i) v]
   | Iface f w ms _ =>
       let g := sub_flag fl f w in
       concat_res (map (fun nm =>
@@ -315,7 +319,7 @@ Fixpoint check_wi (w0 i0 : Z) (l : list tagged) : option cerr :=
   match l with
   | [] => None
   | (_, m) :: r => if negb (w0 =? width (m_shape m)) then Some EWidth
-                   else if negb (i0 =? m_init m) then Some EInit
+                   else if negb (i0 =? m_cinit m) then Some EInit
                    else check_wi w0 i0 r
   end.
 
@@ -340,7 +344,7 @@ Definition step (objs : list obj) (p : list Z) (ms : list member) (st : state) :
   match ins ++ outs with
   | [] => Ok (cs, fst st1, snd st1)
   | (_, m0) :: r =>
-      match check_wi (width (m_shape m0)) (m_init m0) r with
+      match check_wi (width (m_shape m0)) (m_cinit m0) r with
       | Some e => Err e
       | None =>
           match outs with
@@ -429,14 +433,15 @@ Fixpoint meta_dims (f : path -> json) (dims : list nat) (p : path) : json :=
 
 Fixpoint meta_m (fl : bool) (m : member) (p : path) {struct m} : json :=
   match m with
-  | Port f sh i _ => JPort p (flipif fl f) (width sh) (sgn sh) i
+  | Port f sh i _ => JPort p (flipif fl f) (width sh) (sgn sh) (norm sh i)
   | Iface f w ms _ =>
       let g := sub_flag fl f w in
       JIface (map (fun nm => (fst nm, meta_dims (meta_m g (snd nm)) (m_dims (snd nm)) (p ++ [PN (fst nm)]))) ms)
   end.
 Definition metadata (x : sigt) : json := meta_m false (top x) [].
 
-(* ---------- SPEC: effective direction by counting reversals; leaves with indices ---------- *)
+(* ---------- SPEC: effective direction by counting reversals; leaves with indices; the initial value of a leaf is
+   the initial value of its Signal (the given init brought into the port's shape) ---------- *)
 Fixpoint iter_flip (k : nat) (f : flow) : flow := match k with O => f | S k' => flip_flow (iter_flip k' f) end.
 Definition b2n (b : bool) : nat := if b then 1%nat else 0%nat.
 
@@ -453,7 +458,7 @@ Record sleaf := SLeaf { s_path : path; s_flow : flow; s_shape : shape; s_init : 
 
 Fixpoint spec_leaves_m (k : nat) (m : member) (p : path) {struct m} : list sleaf :=
   match m with
-  | Port f sh i d => map (fun idx => SLeaf (p ++ idx) (iter_flip k f) sh i) (idx_paths d)
+  | Port f sh i d => map (fun idx => SLeaf (p ++ idx) (iter_flip k f) sh (norm sh i)) (idx_paths d)
   | Iface f w ms d =>
       flat_map (fun idx =>
         flat_map (fun nm => spec_leaves_m (k + b2n w + b2n (is_in f)) (snd nm) (p ++ idx ++ [PN (fst nm)])) ms)
@@ -465,13 +470,7 @@ Definition spec_leaves (x : sigt) : list sleaf :=
 (* ---------- hypotheses used by the theorems (decidable) ---------- *)
 Fixpoint nodupb (l : list Z) : bool :=
   match l with [] => true | a :: r => negb (existsb (Z.eqb a) r) && nodupb r end.
-(* dict keys are distinct at every level; every initial value is representable in the port's shape *)
-Fixpoint wf_mb (m : member) : bool :=
-  match m with
-  | Port _ sh i _ => norm sh i =? i
-  | Iface _ _ ms _ => nodupb (map fst ms) && forallb (fun nm => wf_mb (snd nm)) ms
-  end.
-(* same without the condition on initial values *)
+(* dict keys are distinct at every level (no condition on initial values: they need not be representable) *)
 Fixpoint names_ok (m : member) : bool :=
   match m with
   | Port _ _ _ _ => true
@@ -485,7 +484,7 @@ Fixpoint safe_mb (fl : bool) (m : member) : bool :=
       let g := sub_flag fl f w in
       forallb (fun nm => negb (g && m_is_iface (snd nm) && nonempty (m_dims (snd nm))) && safe_mb g (snd nm)) ms
   end.
-Definition wf_sig (x : sigt) : bool := wf_mb (top x).
+
 Definition safe_sig (x : sigt) : bool := safe_mb false (top x).
 (* no interface member below the top has dimensions (connect() cannot traverse arrays of interfaces) *)
 Fixpoint nodims_m (m : member) : bool :=
